@@ -108,7 +108,7 @@ def run(chk, tier):
     chk.setcov("variants_textually_identical_to_base", trivial)
     chk.setcov("disagreements_checked", bad)
     chk.setcov("states", states)
-    chk.sample({"variant": "evaldyn", "source": mjgen.print_js(progs[0], variant="evaldyn").split("var T=true, Fa=false;\n")[1][:500],
+    chk.sample({"variant": "evaldyn", "source": mjgen.print_js(progs[0], variant="evaldyn").split("GR;\n", 1)[1][:500],
                 "specified": want[progs[0]["id"]]["log"]})
     chk.setcov("rule", "MiniJS programs (systematic + random, functions and generators) x %d rewrites: literal operands vs variables, never-called "
                "closure capturing the loop variables, direct eval(\"\") in the function, body inside with({}), extra block with a lexical declaration, "
@@ -125,7 +125,7 @@ def replay(path):
     p = m["program"]
     want, _ = oracle.tlc_eval([p], wd, "r")
     got = oracle.goja_run(binp, [p], wd, "r", variant=m["variant"])
-    print(mjgen.print_js(p, variant=m["variant"]).split("var T=true, Fa=false;\n")[1])
+    print(mjgen.print_js(p, variant=m["variant"]).split("GR;\n", 1)[1])
     print("specified:", want[p["id"]])
     print("goja     :", got[p["id"]])
     if oracle.agree(p, want[p["id"]], got[p["id"]]):
